@@ -180,6 +180,13 @@ pub fn run_case(voc: &concretise::Vocab, case: &Value, dump: Option<&str>) -> Ve
                                    "same": d2 == base, "base_read": g.read_outcome}).to_string());
             }
         }
+        "multiref" => {
+            let r = catch_unwind(AssertUnwindSafe(|| crate::multiref::run(case)));
+            match r {
+                Ok(ev) => events.extend(ev),
+                Err(p) => events.push(json!({"ev":"obs","channel":"panic","bare":"no panic","wrapped":panic_msg(&*p)}).to_string()),
+            }
+        }
         "lex" => {
             // generate, then classify where each probe's marker landed in the emitted text
             let ftr = build_files(&files, None, &start);
